@@ -203,9 +203,33 @@ def _resolve(node, env, start, targets):
     return _z(_const_int(node, "forwarded expression")) + "%Z"
 
 
+KNOWN_DECORATORS = {"shortest_path": ["forbidden_mesh_types(PointCloud)"],
+                    "shortest_path_to_vertex_set": ["forbidden_mesh_types(PointCloud)"],
+                    "shortest_path_to_border": ["allowed_mesh_types(SurfaceMesh)"],
+                    "build_path": [], "_check_weight_argument": []}
+
+
+def _signature_facts(src, fn):
+    """Decorators must be the known type guards (a memoising / wrapping decorator changes what a call returns);
+    every default must be an immutable constant. Returns {param: default-constant}."""
+    decos = [T.seg(src, d).replace(" ", "") for d in fn.decorator_list]
+    if decos != KNOWN_DECORATORS[fn.name]:
+        T.fail(REL, fn, "unexpected decorators on %s: %s" % (fn.name, decos))
+    a = fn.args
+    names = [x.arg for x in a.args]
+    out = {}
+    for nm, d in zip(names[len(names) - len(a.defaults):], a.defaults):
+        if not (isinstance(d, ast.Constant) and (d.value is None or isinstance(d.value, (str, bool, int, float)))):
+            T.fail(REL, d, "default of %s.%s is not an immutable constant" % (fn.name, nm))
+        out[nm] = d.value
+    return out
+
+
 def gen_paths():
     src, tree = T.load(REL)
     parts = []
+    for helper in ("build_path", "_check_weight_argument"):
+        _signature_facts(src, T.find_def(tree, helper, REL))
     # ------------------------------------------------------------------ shortest_path
     sp = T.find_def(tree, "shortest_path", REL)
     parts.append(("shortest_path", T.sha(src, sp)))
@@ -213,6 +237,7 @@ def gen_paths():
     if len(P) != 5:
         T.fail(REL, sp, "shortest_path does not take (mesh, start, targets, weights, export_path_mesh)")
     mesh, start, targets, weights, export = P
+    dflt_sp = _signature_facts(src, sp)
     # ---- `if isinstance(targets, <types>): targets = {targets} else: targets = set(targets)`
     st0 = None
     for st in sp.body:
@@ -311,6 +336,7 @@ def gen_paths():
     if len(P2) != 5:
         T.fail(REL, vs, "shortest_path_to_vertex_set does not take 5 parameters")
     mesh2, start2, targets2, weights2, export2 = P2
+    dflt_vs = _signature_facts(src, vs)
     # TARGET = -1
     tgt = None
     for st in vs.body:
@@ -534,6 +560,7 @@ def gen_paths():
     P3 = _params(bo)
     if len(P3) != 4:
         T.fail(REL, bo, "shortest_path_to_border does not take (mesh, start, weights, export_path_mesh)")
+    dflt_bo = _signature_facts(src, bo)
     bb = T.body_nodoc(bo)
     if not (len(bb) == 4 and isinstance(bb[0], ast.If) and isinstance(bb[0].body[0], ast.Raise)
             and isinstance(bb[1], ast.Assign) and isinstance(bb[2], ast.If) and isinstance(bb[3], ast.Return)):
@@ -572,6 +599,13 @@ def gen_paths():
     g.append("(* ---- shortest_path_to_border: shortest_path_to_vertex_set(mesh, start, mesh.boundary_vertices, ...)[k] *)")
     g.append("Definition no_border_test (n : Z) : bool := %s.   (* raise Exception(\"Mesh has no border\") *)" % no_border)
     g.append("Definition border_result_index : nat := %d." % bidx)
+
+    def dflags(d, wname, ename):
+        return (set(d) == {wname, ename} and d.get(wname) == "length", set(d) == {wname, ename} and d.get(ename) is False)
+    fl = [dflags(dflt_sp, weights, export), dflags(dflt_vs, weights2, export2), dflags(dflt_bo, P3[2], P3[3])]
+    g.append("(* ---- optional parameters: exactly `weights` and `export_path_mesh`, defaults %r / %r / %r *)" % (dflt_sp, dflt_vs, dflt_bo))
+    g.append("Definition default_weights_is_length : bool := %s." % ("true" if all(f[0] for f in fl) else "false"))
+    g.append("Definition default_export_is_false : bool := %s." % ("true" if all(f[1] for f in fl) else "false"))
 
     out = T.header("C09: weight selectors, relaxation test, sink construction, shortcut plumbing (paths.py)", parts)
     return out, g
